@@ -268,10 +268,31 @@ func (e *env) write(x ast.Expr) {
 		e.writeElems(v.X) // element write = write of the container's elements
 		e.expr(v.Index)
 	case *ast.StarExpr:
+		// *p = v with p pointing to a struct: every field of the pointee is written
+		if tv, ok := e.pkg.TypesInfo.Types[v]; ok {
+			if st, ok := tv.Type.Underlying().(*types.Struct); ok {
+				if base := e.pathOf(v.X); base != "" && !strings.HasPrefix(base, "!") {
+					for i := 0; i < st.NumFields(); i++ {
+						if f := st.Field(i); !isMutexType(f.Type()) {
+							e.recordPath(base+"."+f.Name(), "W", v.Pos())
+						}
+					}
+				}
+			}
+		}
 		e.write(v.X)
 	case *ast.ParenExpr:
 		e.write(v.X)
 	}
+}
+
+func (e *env) recordPath(loc, kind string, at token.Pos) {
+	locks := map[string]string{}
+	for k, v := range e.held {
+		locks[k] = v
+	}
+	pos := e.pkg.Fset.Position(at)
+	accesses = append(accesses, access{loc, kind, locks, fmt.Sprintf("%s@%s:%d", e.entry, relFile(pos.Filename), pos.Line), e.thread})
 }
 
 // writeElems: x[i] = v writes the elements of x; for a slice-typed field that is the field without its header
